@@ -653,6 +653,11 @@ func (encryptor *QueryDataEncryptor) encryptValuesWithPlaceholders(ctx context.C
 		if !schema.NeedToEncrypt(columnName) {
 			continue
 		}
+		// the Bind packet may carry fewer values than the statement has placeholders
+		// (the database will reject it): there is nothing to encrypt for a value that is not there
+		if valueIndex < 0 || valueIndex >= len(oldValues) {
+			return oldValues, false, base.ErrInvalidPlaceholder
+		}
 
 		// Allocate the result slice only if there are some values that need encryption.
 		// Otherwise we'll just return the original old one.
